@@ -67,12 +67,18 @@ INDEPENDENT = {
     '>=0 as.constant 2.0 >=1.5 as.polynomial 0.5 -0.25 >3.0 as.zero': lambda r: 2.0 if r < 1.5 else (0.5 - 0.25 * r if r <= 3.0 else 0.0),
     'sum(as.polynomial 0.5 -0.25, >=2.0 as.constant 1.0)': lambda r: 0.5 - 0.25 * r + (1.0 if r >= 2.0 else 0.0),
     'product(as.polynomial -2.0 1.0, as.bornmayer 3.0 0.5)': lambda r: (-2.0 + r) * 3.0 * _math.exp(-r / 0.5),
+    # custom forms written as several statements (' ; ' separates statements, the last one is the value) and over several lines with an
+    # end-of-line comment on a line that is not the last: the whole text is the formula
+    'screened 1000.0 0.3 -2.0': lambda r: 1000.0 * _math.exp(-r / 0.3) + (-2.0) / r,
+    'lincom 2.0 0.5': lambda r: 2.0 * r + 0.5,
 }
 DEFS += sorted(INDEPENDENT)
 def independent_corpus():
-    ds = sorted(INDEPENDENT)
+    ds = sorted(k for k in INDEPENDENT if k.split()[0] not in ('screened', 'lincom'))
     return [{'potable': [['Al', 'Al', ds[0]], ['Al', 'Cu', ds[1]], ['Cu', 'Cu', ds[2]]], 'cutoff': 4.0, 'nr': 9, 'labels': ['Al', 'Cu'], 'route': 'configuration'},
-            {'potable': [['Fe', 'Fe', ds[3]], ['Fe', 'Ni', ds[4]]], 'cutoff': 4.0, 'nr': 9, 'labels': ['Fe', 'Ni'], 'route': 'potable'}]
+            {'potable': [['Fe', 'Fe', ds[3]], ['Fe', 'Ni', ds[4]]], 'cutoff': 4.0, 'nr': 9, 'labels': ['Fe', 'Ni'], 'route': 'potable'},
+            {'potable': [['Mg', 'Mg', 'screened 1000.0 0.3 -2.0'], ['Mg', 'O', 'lincom 2.0 0.5']], 'cutoff': 4.0, 'nr': 9, 'labels': ['Mg', 'O'], 'route': 'potable'},
+            {'potable': [['Mg', 'O', 'screened 1000.0 0.3 -2.0'], ['O', 'O', 'lincom 2.0 0.5']], 'cutoff': 3.0, 'nr': 7, 'labels': ['Mg', 'O'], 'route': 'configuration'}]
 def gen_potable_case(rng):
     n = rng.choice([1, 2, 3])
     labs, ids, srt = layout.pick_species(rng, rng.randint(1, 3))
@@ -87,7 +93,7 @@ def gen_potable_case(rng):
     return {'potable': pairs, 'cutoff': cutoff, 'nr': nr, 'labels': srt, 'route': rng.choice(['potable', 'configuration'])}
 
 def potable_text(case, target='LAMMPS'):
-    txt = '[Tabulation]\ntarget : %s\ncutoff : %r\nnr : %d\n\n[Potential-Form]\nmyform(r, a, b) = a*exp(-r/b) + 0.01*r^2\n\n' % (target, case['cutoff'], case['nr'])
+    txt = '[Tabulation]\ntarget : %s\ncutoff : %r\nnr : %d\n\n[Potential-Form]\nmyform(r, a, b) = a*exp(-r/b) + 0.01*r^2\nscreened(r, A, rho, q) = var sr := A*exp(-r/rho) ; var lr := q/r ; sr + lr\nlincom(r, A, B) = A*r // the linear part\n    + B\n\n' % (target, case['cutoff'], case['nr'])
     txt += '[Table-Form:tabf]\nx : 0.0 1.0 2.0 3.0 4.5 6.0 12.0\ny : 5.0 2.0 0.5 -0.25 -0.125 -0.01 0.0\n\n[Pair]\n'
     for a, b, d in case['potable']:
         txt += '%s-%s : %s\n' % (a, b, d)
